@@ -14,7 +14,7 @@ RULE = ("one case = (adaptive method or Richardson wrapper, problem class+seed, 
 ASSUMPTIONS = ["problems are contractive along the direction of integration (logarithmic norm <= 0), so the problem's own amplification is ~1",
                "tolerance unit per component: atol + rtol*max(|y_i|, 0.1*max_j|y_j|) (a component passing through zero is judged on the scale of the solution)"]
 FLOORS = {"quick": {"runs_checked": 45, "local_steps_checked": 1000, "rejected_attempts_forward": 30, "rejected_attempts_backward": 30, "blowup_runs": 6, "blowup_raised": 1, "closing_step_rejected": 8},
-          "thorough": {"runs_checked": 400, "local_steps_checked": 10000, "rejected_attempts_forward": 300, "rejected_attempts_backward": 300, "blowup_runs": 40, "blowup_raised": 5, "closing_step_rejected": 30}}
+          "thorough": {"runs_checked": 400, "local_steps_checked": 10000, "rejected_attempts_forward": 300, "rejected_attempts_backward": 300, "blowup_runs": 25, "blowup_raised": 5, "closing_step_rejected": 30}}
 K_TOL = 200.0
 K_GLOB = 20.0
 K_LOC = 50.0
